@@ -1,6 +1,154 @@
-NOT_APPLICABLE = {}
+NOT_APPLICABLE = {
+}
 
+HELD = ('Holds on the executions observed by this run (counts in the evidence file); nothing is claimed about programs, '
+        'inputs or histories that were not generated. Exit 2 (inconclusive) when a deciding monitor was never reached.')
+
+C01_PENDING = ('exploration',
+         'History + executable model: typed random programs (IR) are rendered to QBASIC, compiled by the real compiler at the six '
+         'configurations and run on the real VM with scripted peripherals; the device history (typed PRINT arguments decoded on '
+         'the operand stack at `io terminal,print`, prompts, inputs, screen/sound/memory calls, RND/TIMER/INKEY consumption), the '
+         'outcome (halt / trap class) and, with -g, the line of the failing statement are compared with a reference interpreter '
+         '(RefQB) executing the same IR. ' + HELD,
+         'Trusts RefQB for the generated subset (semantic grey zones are excluded from generation, DESIGN §6), the renderer and the '
+         'recording peripherals object.',
+         'runtime monitoring: device-boundary history checked against a reference interpreter', 'DESIGN.md §4 C01')
+register('C02', 'exploration',
+         'Three runtime monitors, one verdict: (1) level differential - every source compiled at levels 0,1,2,3 must agree on '
+         'acceptance, device history, outcome and (with -g) trap line; (2) constant-expression grid - PRINT/CONST/nested wrappers of '
+         'every operator x ordered operand type pair x boundary values, typed value or trap at O0 must be reproduced at O1..O3; (3) '
+         'peephole windows - all instruction windows of length <=2 (quick) / <=3 (thorough) over the foldable alphabet, spliced into '
+         'a compiled module and executed on the real CPU before and after QvmCode.optimize(), same stack (types+values), cells, '
+         'trap. ' + HELD,
+         'Level 0 is the reference behaviour. Windows whose unoptimised execution is itself a machine fault (ill-typed for the '
+         'machine) are skipped and counted; integer ^ huge integer is excluded (the baseline would not terminate).',
+         'runtime differential monitoring across optimisation levels + enumerated windows executed on the real CPU', 'DESIGN.md §4 C02')
+register('C03', 'exploration',
+         'Per-tick CPU monitor (subclassed QvmCpu + class-level cell hooks) on concrete runs of accepted programs: pc on an '
+         'instruction start, every cell access inside its segment, cells keep one type, typed reads push their type, stack values '
+         'fit their type, operand-stack depth at statement starts (-g) = entry depth + active GOSUBs, no machine-fault trap, no '
+         'host exception; input scripts are re-drawn to see both outcomes of jz sites (reach is reported). ' + HELD,
+         'Concrete runs only: the abstract-interpretation half of the quantifier is outside runtime monitoring (DESIGN §1.2); '
+         'one-sided jz sites are reported in evidence.',
+         'runtime invariant monitoring on a monitored CPU (invariant at a hook)', 'DESIGN.md §4 C03')
+register('C04', 'exploration',
+         'Sentinel histories: for enumerated declaration layouts (shape x scope x neighbours) every location gets a unique typed '
+         'sentinel; reads (typed PRINT arguments) are compared with a store model of named locations - forward, reverse, '
+         'interleaved orders, read-before-write next to live data, by-reference writes through call depth 1-4, expression '
+         'arguments, recursion, second activation (fresh locals / persistent STATIC), SHARED from procedures - plus cell-level '
+         'monitors (reads write nothing but the default at the cell read; cells keep their type). ' + HELD,
+         'Arrays are kept to <=30 elements so that every element is written and read back.',
+         'runtime monitoring: unique-value histories against a location store model + cell hooks', 'DESIGN.md §4 C04')
+register('C05', 'fault_enumeration',
+         'Fault enumeration at the compiler boundary: a catalogue of ~105 static-rule violations is injected one at a time at '
+         'applicable sites (main, procedure body, nested block, one-line IF) of valid generated seeds; the exception type, .code and '
+         '.loc_start raised by Compiler.compile() are observed at O0 and O2-g (all six configs on a rotating sixth) and compared with '
+         'the rule category and the acceptable lines; the unfaulted seed must be accepted. ' + HELD,
+         'Expected categories are the ones the repository documents (ErrorCode / SyntaxError); acceptable lines per DESIGN §4 C05.',
+         'runtime observation of diagnostics under enumerated fault injection', 'DESIGN.md §4 C05')
+register('C06', 'exploration',
+         'Exception observer around Compiler.compile(), bytes(code) and str(code): token-level mutations of valid programs and repo '
+         'snippets, a statement-form sweep (every statement keyword with missing/extra/wrongly-typed operands in main, SUB, block, '
+         'one-line IF) and the unmutated programs, at rotating configurations; anything other than SyntaxError/CompileError with a '
+         'position inside the text, or a compilation exceeding the termination guard twice, is a violation. ' + HELD,
+         'Termination is judged by a 30 s then 90 s wall-clock guard per compilation.',
+         'runtime monitoring of escaping exceptions under grammar-directed and mutation workloads', 'DESIGN.md §4 C06')
+register('C07', 'exploration',
+         'Exception observer around every QvmCpu.tick(); cause -> trap-class table for constructed failures (division by zero, '
+         'overflow, subscript, illegal argument, device failure) x place x handler x -g; accepted mutants run for totality; real '
+         'SIGINT delivered between ticks through the handler QvmCpu installed, at every boundary of programs <=300 ticks (sampled '
+         'beyond), with a full state digest before the request and after the next tick. ' + HELD,
+         'Device refusals are scripted through the peripherals object; runs are cut at a logical tick budget (reported, not a violation).',
+         'runtime monitoring with fault-directed workloads and signal injection at every tick boundary', 'DESIGN.md §4 C07')
 register('C08', 'exploration',
-         'Differential monitoring: every source is compiled with and without -g at O0..O2 and both modules are run on the same scripted inputs; acceptance, sections 1-3, device history (incl. typed PRINT arguments) and outcome must be equal. Holds on the executions observed (typed random programs, repo snippets, marker-sensitive shapes); nothing is claimed about programs not generated.',
-         'Trusts the recording peripherals object and the print-argument decoder; RESUME-executing programs are exempt from history comparison as the property allows (observed at errres/errresn, not guessed).',
+         'Differential monitoring: every source is compiled with and without -g at O0..O2 and both modules are run on the same '
+         'scripted inputs; acceptance, sections 1-3, device history (incl. typed PRINT arguments) and outcome must be equal; '
+         'RESUME-executing programs (observed at errres/errresn) are exempt from the history comparison as the property allows. ' + HELD,
+         'Trusts the recording peripherals object and the print-argument decoder.',
          'runtime differential monitoring (-g vs no -g) of device histories and module sections', 'DESIGN.md §4 C08')
+register('C09', 'exploration',
+         'Cross-agreement of the artefacts of one compilation, observed at run time: loader round trip of literals/DATA/globals/code, '
+         'independent linear decoder vs the CPU decoder vs the emitted instruction list, disassembly vs listing (mnemonics, '
+         'immediates, label addresses, variable slots), jump/call/errhand targets on instruction starts, slot operands inside '
+         'frame/global area, frame operands vs an independent size model; cp437 literal sweep, DATA layouts, size cliffs. ' + HELD,
+         'The opcode table qvm/instrs.py is the ISA definition and is shared by the independent decoder.',
+         'runtime structural monitoring of module artefacts (cross-checking decoders and listings)', 'DESIGN.md §4 C09')
+register('C10', 'fault_enumeration',
+         'Fault enumeration over planted failing statements (kind x error kind x expression depth x place x handler form x 1-3 '
+         'failures in sequence x O0..O2 -g): the tag trace printed by the program is compared with a statement-level model of '
+         'ON ERROR / RESUME / RESUME NEXT, ERR must be a function of and injective on the error kind, the stack-depth monitor checks '
+         'that no partial results survive a resume, continuations (GOSUB/RETURN, CALL, second error, ON ERROR GOTO 0) must behave '
+         'normally. ' + HELD,
+         'For errors inside procedures only handler entry with the right ERR is demanded, as the property states; RESUME NEXT after '
+         'an error in a block header is not generated.',
+         'runtime monitoring of tag traces and stack depth under enumerated planted failures', 'DESIGN.md §4 C10')
+register('C11', 'exploration',
+         'Structural checker over module.debug_info against independently decoded instruction starts (boundaries, nesting, coverage '
+         'of routine bodies, routine records = frame..ret, source extracts) plus a tag oracle (every PRINT / numeric assignment '
+         'carries a unique LONG literal: the instruction holding tag t must be attributed to the line where t is written), '
+         'find_stmt(pc) at every `io terminal,print` during execution and find_stmt(trapped_addr) for planted failures, at O0..O2. ' + HELD,
+         'Module prologue, frame instructions and a routine\'s final ret may lie outside statement records.',
+         'runtime structural monitoring of debug records with unique-tag attribution', 'DESIGN.md §4 C11')
+register('C12', 'exploration',
+         'Debugger driven through Cmd.onecmd with stdout capture: random command histories (<=40) and every sequence of length <=4 '
+         '(quick) / <=5 (thorough) over {step,next,stepi,nexti,continue,break L,delbr L} on small programs; oracles: free run of the '
+         'same module and script (history, outcome), unique PRINT tags (one simple statement per step; stop line = statement about to '
+         'run), frame depth for next, an independent breakpoint-address model with arrival counts from the free-run pc trace, no '
+         'activity after the program finished. ' + HELD,
+         'A session is cut at a tick budget (inconclusive for that history).',
+         'runtime monitoring of debugger sessions against the free run (bounded exhaustive command sequences)', 'DESIGN.md §4 C12')
+register('C13', 'exploration',
+         'Differential monitoring of the debugger evaluator against the program itself: at line breakpoints on probe statements '
+         '`PRINT <e>` the driver asks `print <e>`, then steps and reads the typed value the program printed for the same <e>; '
+         'probes in main and at call depth 1-3 over parameters, locals, STATIC, SHARED, consts, arrays, records; negative set must '
+         'yield evaluation errors; a full machine-state digest before/after every print; also after the program finished. ' + HELD,
+         'Float results are compared with relative tolerance 1e-6 (SINGLE) / 1e-12 (DOUBLE).',
+         'runtime differential monitoring (debugger vs program) with state digests', 'DESIGN.md §4 C13')
+register('C14', 'exploration',
+         'Differential monitoring under behaviour-neutral rewrites: each source and its rewritten variants (letter case, blanks/tabs, '
+         'comments, blank lines, colon joining, LET, CALL form, NEXT variable, <> vs ><, label/line-number renaming) must agree on '
+         'acceptance and on sections 1-4, or else on device history and outcome. ' + HELD,
+         'Rewrites are applied by the IR renderer (generated programs) or a conservative text rewriter (repo snippets).',
+         'runtime differential monitoring under metamorphic source rewrites', 'DESIGN.md §4 C14')
+register('C15', 'exploration',
+         'DATA texts over {a,1,blank,comma,quote,colon,dot} exhaustively up to length 5 (quick) / 6 (thorough), read back through '
+         'compiled READs behind individual RESTORE labels and compared with a reference tokenizer written from the property text; '
+         'random layouts of DATA statements x labels (with/without DATA, several per DATA, after the last DATA, after procedures) x '
+         'READ/RESTORE sequences with targets of all five types against a cursor model, including exhaustion and conversion errors. ' + HELD,
+         'The tokenizer oracle applies to well-formed items only; numeric conversion is demanded for plain integers and decimals.',
+         'runtime monitoring of READ histories against a reference tokenizer and cursor model', 'DESIGN.md §4 C15')
+register('C16', 'exploration',
+         'All 65 536 INTEGER values and boundary/random LONG/SINGLE/DOUBLE values are pushed through compiled PRINT, STR$, VAL, READ '
+         'and INPUT; the texts are judged by exact decimal arithmetic (Fraction) on the bit pattern: plain decimal form for integers, '
+         '<=7/17 significant digits within half a unit of the last shown digit, same digits for PRINT/STR$ and for x/-x, read-back '
+         'within one unit. ' + HELD,
+         'Significant digits are counted from the first to the last non-zero digit shown.',
+         'runtime monitoring of conversions with an exact-arithmetic oracle (INTEGER exhaustive)', 'DESIGN.md §4 C16')
+register('C17', 'exploration',
+         'Every valid PRINT token sequence of <=4 tokens (plus sampled longer ones) over an item alphabet with unambiguous number text '
+         'is rendered as literals, variables, expressions/function results and inside SUB/loop/one-line IF; the text passed to '
+         'terminal_print is compared with a reference layout function (zones of 14, separators, line ends). ' + HELD,
+         'Number text of the alphabet values is beyond doubt; C16 judges number text in general.',
+         'runtime monitoring of terminal output against a reference layout model', 'DESIGN.md §4 C17')
+register('C18', 'exploration',
+         'INPUT statements (1-4 variables, all types, scalar/element/field/by-ref parameter targets, three prompt forms) x response '
+         'histories of 1-5 lines drawn from valid/invalid classes followed by a continuation; the prompt/redo conversation, a cell '
+         'digest at every re-prompt, the typed values afterwards, the outcome and the final stack are compared with a reference '
+         'INPUT model. ' + HELD,
+         'Fractional text for integer variables, empty numeric fields and quoted fields are not generated (property silent).',
+         'runtime monitoring of the INPUT conversation and memory digests against a reference model', 'DESIGN.md §4 C18')
+register('C19', 'exploration',
+         'Format strings over {#,.,comma,+,-,&,!,_,x,blank} exhaustively up to length 4 (quick) / 5 (thorough) plus sampled longer '
+         'ones, with boundary values per field; the text passed to terminal_print is matched field by field against an independent '
+         'reference formatter on Decimal(value) that accepts both tie-breaking rules and both treatments of a leading zero that does '
+         'not fit. ' + HELD,
+         'Ambiguous formats (sign directly before a field that is not a trailing sign, dangling comma, trailing underscore, format '
+         'reuse) are not judged.',
+         'runtime monitoring of PRINT USING output against an independent reference formatter', 'DESIGN.md §4 C19')
+register('C20', 'exploration',
+         'Each batch of sources is compiled and run in fresh child processes under PYTHONHASHSEED 0/1/2/random, from another working '
+         'directory, under three fake clocks, and in a reused process after a history of other (also failing) compilations and twice '
+         'in a row; sha256 of sections 1-4, of the listing, of the device trace, the outcome and the tick count must be identical '
+         'everywhere; an audit hook records file/socket/process events on the compile/run path. ' + HELD,
+         'Section 5 (gzip+pickle) is excluded as the property states; clock independence is tested with patched time/datetime.',
+         'runtime differential monitoring across processes, hash seeds, clocks and compilation histories', 'DESIGN.md §4 C20')
